@@ -1,6 +1,7 @@
 package props
 
 import (
+	"encoding/hex"
 	"fmt"
 	"os"
 	"path/filepath"
@@ -34,10 +35,26 @@ func evalC07(k xCase) []pbt.Violation {
 		x.Files["lua"] = res.Files["lua"]
 		dir := filepath.Join(os.Getenv("VERIF_RUNDIR"), fmt.Sprintf("c07lua-%d-%d", os.Getpid(), xSeq.Add(1)))
 		_ = os.MkdirAll(dir, 0o755)
-		lr := xlang.RunLua(k.Prog, res.Files["lua"], dir, nil)
+		var hexes []string
+		for i, m := range k.Msgs {
+			if m.Packet == k.Prog.RootPacket().Name && i < len(x.Ref) {
+				hexes = append(hexes, hex.EncodeToString(x.Ref[i].Bytes[0]))
+			}
+		}
+		if _, ex := applicable(k.Prog, []string{"lua"}, pbt.AvoidTags("C15")); len(ex) > 0 {
+			hexes = nil
+		}
+		lr := xlang.RunLua(k.Prog, res.Files["lua"], dir, hexes)
 		os.RemoveAll(dir)
 		if lr.LoadErr != "" {
 			vs = append(vs, pbt.Violation{Signature: "lua-load:" + luaErrClass(k.Prog, lr.LoadErr), Detail: "the emitted Lua script does not load: " + clip(lr.LoadErr, 300)})
+		} else {
+			for _, run := range lr.Runs {
+				if !run.OK {
+					vs = append(vs, pbt.Violation{Signature: "lua-error:" + luaErrClass(k.Prog, run.Err), Detail: "the emitted Lua dissector raises an error on a declared message: " + clip(run.Err, 300)})
+					break
+				}
+			}
 		}
 	}
 	for _, l := range append(append([]string{}, k.Langs...), "lua") {
@@ -91,6 +108,6 @@ func TestC07(t *testing.T) {
 			composite := dsl.Has(f, "obj") || dsl.Has(f, "inline") || dsl.Has(f, "match") || dsl.Has(f, "repeat:obj") || dsl.Has(f, "repeat:inline")
 			return (len(k.Prog.Packets) >= 2 || composite) && dsl.Has(f, "shape:field")
 		},
-		assume:     []string{"the driver refers to members by the name used at their declaration site in each language (computed with the same strcase v0.3.0 conversions)"},
+		assume: []string{"the driver refers to members by the name used at their declaration site in each language (computed with the same strcase v0.3.0 conversions)"},
 	})
 }
